@@ -19,8 +19,8 @@ RULE = ("case = (topology, np ranks, root, 1..3 outputs each with the list of de
         "parsec_remote_dep_activate runs on the root, hook H4 captures each send, each captured activation is delivered by running the "
         "receiver-side steps and the real parsec_remote_dep_propagate on the peer; oracle = every destination of every output gets "
         "that output exactly once from a sender that holds it (payload predicate of remote_dep_mpi_pack_dep), nobody else gets "
-        "anything, nobody gets two activations; non-trivial = two outputs with different but overlapping destination sets AND a "
-        "relay (non-root sender); distinct = distinct case values (hash)")
+        "anything, nobody gets two activations; non-trivial = two outputs with different but overlapping destination sets on a "
+        "chain/binomial topology, or two outputs forwarded through a relay (non-root sender); distinct = distinct case values (hash)")
 
 
 def _build():
@@ -33,7 +33,9 @@ def o2_mode():
         return m
     if any(f.get("id") == "O2" or "O2" in str(f.get("what", "")) for f in core.known_for(PROP)):
         return "known"
-    return "violation"
+    # O2 was repaired in /repo (known_findings.json: C13-F1, status fixed): nothing is excluded any more, the search
+    # covers the formerly failing families and the minimal replays are part of the regression corpus.
+    return "search"
 
 
 SUPP = os.path.join(core.VERIF, "harness", PROP, "ubsan.supp")
